@@ -1188,6 +1188,10 @@ type (
 		socketReadErrorOnce sync.Once
 
 		rd atomic.Value // read deadline for Accept()
+
+		// closed and replaced whenever the deadline changes, so that every
+		// blocked Accept() re-arms its timer
+		chDeadline atomic.Value // chan struct{}
 	}
 )
 
@@ -1412,6 +1416,10 @@ func (l *Listener) Accept() (net.Conn, error) {
 
 // AcceptKCP accepts a KCP connection
 func (l *Listener) AcceptKCP() (*UDPSession, error) {
+RESET_TIMER:
+	// load the change channel before the deadline: a change in between wakes us up again
+	deadlineChanged := l.chDeadline.Load().(chan struct{})
+
 	var timeout <-chan time.Time
 	if tdeadline, ok := l.rd.Load().(time.Time); ok && !tdeadline.IsZero() {
 		timer := time.NewTimer(time.Until(tdeadline))
@@ -1422,6 +1430,8 @@ func (l *Listener) AcceptKCP() (*UDPSession, error) {
 	verifYield("accept.block")
 
 	select {
+	case <-deadlineChanged:
+		goto RESET_TIMER
 	case <-timeout:
 		return nil, errors.WithStack(errTimeout)
 	case c := <-l.chAccepts:
@@ -1443,6 +1453,7 @@ func (l *Listener) SetDeadline(t time.Time) error {
 // SetReadDeadline implements the Conn SetReadDeadline method.
 func (l *Listener) SetReadDeadline(t time.Time) error {
 	l.rd.Store(t)
+	notifyDeadlineChange(&l.chDeadline)
 	return nil
 }
 
@@ -1544,6 +1555,7 @@ func serveConn(block BlockCrypt, dataShards, parityShards int, conn net.PacketCo
 	l.parityShards = parityShards
 	l.block = block
 	l.chSocketReadError = make(chan struct{})
+	l.chDeadline.Store(make(chan struct{}))
 	go l.monitor()
 	return l, nil
 }
